@@ -52,6 +52,52 @@ theorem chunks_eq_nil_iff (n : Nat) (bs : Bytes) : chunks n bs = [] ↔ bs = [] 
     simpa [concat] using this.symm
   · intro h; subst h; exact chunks_nil n
 
+theorem chunksF_mem (f n : Nat) (bs : Bytes) (hn : 0 < n) (x : Bytes) (hx : x ∈ chunksF f n bs) :
+    x ≠ [] ∧ x.length ≤ n := by
+  induction f generalizing bs with
+  | zero => simp [chunksF] at hx
+  | succ f ih =>
+    unfold chunksF at hx
+    by_cases hb : bs.isEmpty
+    · simp [hb] at hx
+    · simp only [hb, Bool.false_eq_true, if_false, List.mem_cons] at hx
+      rcases hx with rfl | hx
+      · refine ⟨?_, by simp [List.length_take]; omega⟩
+        intro h
+        have : bs.take n = [] := h
+        rw [List.take_eq_nil_iff] at this
+        rcases this with h0 | h0
+        · omega
+        · apply hb; simp [h0]
+      · exact ih _ hx
+
+theorem chunksF_length_le (f n : Nat) (bs : Bytes) (hn : 0 < n) : (chunksF f n bs).length ≤ bs.length := by
+  induction f generalizing bs with
+  | zero => simp [chunksF]
+  | succ f ih =>
+    unfold chunksF
+    by_cases hb : bs.isEmpty
+    · simp [hb]
+    · simp only [hb, Bool.false_eq_true, if_false, List.length_cons]
+      have := ih (bs.drop n)
+      have hne : bs.length ≠ 0 := by
+        intro h0; apply hb; simp [List.eq_nil_of_length_eq_zero h0]
+      simp [List.length_drop] at this
+      omega
+
+/-- every row is non-empty and at most `n` bytes long -/
+theorem chunks_mem (n : Nat) (bs : Bytes) (hn : 0 < n) (x : Bytes) (hx : x ∈ chunks n bs) : x ≠ [] ∧ x.length ≤ n := by
+  unfold chunks at hx
+  have : ¬ n = 0 := by omega
+  simp only [this, if_false] at hx
+  exact chunksF_mem _ n bs hn x hx
+
+theorem chunks_length_le (n : Nat) (bs : Bytes) (hn : 0 < n) : (chunks n bs).length ≤ bs.length := by
+  unfold chunks
+  have : ¬ n = 0 := by omega
+  simp only [this, if_false]
+  exact chunksF_length_le _ n bs hn
+
 /-! ## big-endian fields -/
 
 theorem beN_length (w v : Nat) : (beN w v).length = w := by
